@@ -46,6 +46,8 @@ def decorate(spec, variant):
         c["g"] = ["", "alpha", "beta"][(j + variant) % 3]
         if (j + variant) % 2 == 1:
             c["lim"] = copy.deepcopy(APPL_LIM.get(c["k"], ALL_LIM))
+            if variant == 3:  # a negative-rail window written in the rail's polarity: [-min, -max] is NOT ascending
+                c["lim"] = {k: ([-v[0], -v[1]] if k != "tp" else v) for k, v in c["lim"].items()}
     if variant % 2:
         for c in sp["comps"]:
             c["p"] = [rails.get(p, p) for p in c["p"]]
